@@ -56,7 +56,13 @@ def monotone_idempotent(ctx, file, site):
                         if isinstance(y, ast.Name) and (y.id in params or y.id == 'self'):
                             return False, f'loop source depends on parameter {y.id}'
                         if isinstance(y, ast.Call):
-                            return False, 'loop source calls a function'
+                            # a parameterless module-level function that only combines class-level constants is such a constant itself
+                            callee = next((d_ for d_ in tree.body if isinstance(d_, ast.FunctionDef) and isinstance(y.func, ast.Name) and d_.name == y.func.id), None)
+                            const_fn = callee is not None and not y.args and not y.keywords and not callee.args.args and not callee.args.vararg and not callee.args.kwarg \
+                                and all(isinstance(st_, (ast.Import, ast.ImportFrom, ast.Return, ast.Expr)) for st_ in callee.body) \
+                                and not any(isinstance(z, (ast.Call, ast.Global, ast.Nonlocal)) for st_ in callee.body if isinstance(st_, ast.Return) for z in ast.walk(st_))
+                            if not const_fn:
+                                return False, 'loop source calls a function'
             if isinstance(x, ast.Call):
                 return False, 'value is computed by a call'
     return True, 'values are a function of class-level constants only; set growth is idempotent'
